@@ -105,6 +105,9 @@ func VerifRun_C18b() {
 	f1 := root + "/" + d1 + "/x.lua"
 	mainF := root + "/m.lua"
 	main := []byte("local r = require(\"" + p1 + ".x\")\nq = r\n")
+	if verifBool("dofileform") { // the exact relative path with its suffix (resolved through the file-exists cache)
+		main = []byte("local r = dofile(\"" + p1 + "/x.lua\")\nq = r\n")
+	}
 	verifVFSPut(mainF, main)
 	startsWith := verifBool("present")
 	files := []string{mainF}
